@@ -74,9 +74,18 @@ def describe(tok):
     return 'an object of unknown origin'
 
 
+from ..normalise import cross_call_memos
+
+
 def check_A1(ctx, scope, methods, public):
     entry = {m.qualname for m in public}
     n = 0
+    memos = {}
+    for name, m in methods.items():
+        for X, verdict in cross_call_memos(getattr(m, 'original', m)).items():
+            memos[X] = verdict
+            ctx.ob('memo-validity', m, m.node, verdict[0], 'cross-call memo table self.%s: %s' % (X, verdict[1]),
+                   construct='memo table self.%s in %s' % (X, m.name))
     for key, fi in scope.funcs.items():
         s = scope.summaries[key]
         in_engine = fi.cls is not None and fi.cls.name == 'FactoredInference'
@@ -102,6 +111,9 @@ def check_A1(ctx, scope, methods, public):
                         bad.append(t)
                 elif in_engine:
                     bad.append(t)
+            ok = not bad
+            # a memo table is judged by memo-validity above (and reported there if it is not valid)
+            bad = [t for t in bad if not (t.startswith('S:') and t[2:] in memos)]
             ok = not bad
             if ok and foreign:
                 detail = '%s: writes to %s - obligation transferred to the call sites (summary)' % (site.what, ', '.join(foreign))
